@@ -448,6 +448,49 @@ func ruleFuncReg(p *Prog, r *Result) {
 			}
 			var isNumArgs func(v ssa.Value) bool
 			isNumArgs = func(v ssa.Value) bool {
+				// a result of a package helper that hands out the registered signature
+				if ex, ok := v.(*ssa.Extract); ok {
+					if c, ok := ex.Tuple.(*ssa.Call); ok {
+						if g := c.Call.StaticCallee(); g != nil && p.InPkg(g) && len(g.Blocks) > 0 {
+							any := false
+							for _, gb := range g.Blocks {
+								ret := retOf(gb)
+								if ret == nil || ex.Index >= len(ret.Results) {
+									continue
+								}
+								rv := ret.Results[ex.Index]
+								if _, isC := rv.(*ssa.Const); isC {
+									continue
+								}
+								// named results: the value returned is a load of the result cell
+								if u, ok := rv.(*ssa.UnOp); ok {
+									if al, ok := u.X.(*ssa.Alloc); ok {
+										okAll := true
+										for _, sv := range storedInto(al) {
+											if _, isC := sv.(*ssa.Const); isC {
+												continue
+											}
+											if !isNumArgs(sv) {
+												okAll = false
+											} else {
+												any = true
+											}
+										}
+										if !okAll {
+											return false
+										}
+										continue
+									}
+								}
+								if !isNumArgs(rv) {
+									return false
+								}
+								any = true
+							}
+							return any
+						}
+					}
+				}
 				if ph, ok := v.(*ssa.Phi); ok {
 					any := false
 					for _, e := range ph.Edges {
